@@ -30,6 +30,13 @@ fn main() {
         return;
     }
     #[cfg(not(kani))]
+    if args.len() >= 6 && args[1] == "--m-c12" {
+        let f = |s: &String| f64::from_bits(u64::from_str_radix(s.trim_start_matches("0x"), 16).unwrap());
+        let bad = rvh::mreplay::m_c12(&args[2], f(&args[3]), f(&args[4]), f(&args[5]));
+        println!("{}", if bad { "MISMATCH" } else { "OK" });
+        return;
+    }
+    #[cfg(not(kani))]
     if args.len() >= 4 && args[1] == "--m-c14" {
         let bad = rvh::mreplay::m_c14(&args[2], args[3].parse().unwrap());
         println!("{}", if bad { "MISMATCH" } else { "OK" });
